@@ -95,6 +95,7 @@ def main():
         # "or a block fails at any instant": BEGIN, the first statements, the version row / metadata statements and COMMIT
         # of every block fail once (the full statement enumeration belongs to C10)
         fdoc = runs[0][1]
+        fdoc_blocks = s.blocks
         fpath = crash_run(vh, fdoc, work, "fail-edges", [], 0, 0, span=(4 if tier == "quick" else 0), mode="stmtfault", edges=True)
         fevs = [json.loads(l) for l in open(fpath)]
         infra += sum(1 for e in fevs if e["ev"] == "Infra")
@@ -105,14 +106,46 @@ def main():
         open_f = vlib.open_findings(PID)
         known = {}
         for e in fexp:
-            if not (e.get("resumed") and e.get("equal") and e.get("syncverOKAtTip")):
+            if not (e.get("resumed") and e.get("equal") and e.get("syncverOKAtTip") and e.get("contOK", True)):
                 f = next((f for f in open_f if f.get("signature", {}).get("site") and f["signature"]["site"] in e.get("site", "")), None)
                 if f:
                     known[f["id"]] = f
                     continue
                 issues.append(("fail-edges", 0, PID, "after a failed statement (event %s of block %s, %s) heights are not applied once each in order / ledger differs: %s"
                                % (e["k"], e["h"], e.get("site"), e.get("diffTables")), fpath))
-        if issues:
+        # ... and a block also fails when an upstream request of it fails: every request of one seeded block and every 4th of the others
+        # (quick), every request of every block (thorough); the database must then hold whole blocks only and the resumed daemon must
+        # reach the ledger of the uninterrupted run (the full request x statement enumeration belongs to C10)
+        richb = [h for h in sorted(fdoc_blocks) if fdoc_blocks[h].get("entries")]
+        rpath = crash_run(vh, fdoc, work, "fail-req", [rnd.choice(richb)] if tier == "quick" else sorted(fdoc_blocks),
+                          4 if tier == "quick" else 0, rnd.randrange(4), span=(3 if tier == "quick" else 0), mode="reqfault")
+        revs = [json.loads(l) for l in open(rpath)]
+        infra += sum(1 for e in revs if e["ev"] == "Infra")
+        rexp = [e for e in revs if e["ev"] == "FaultExp"]
+        nexp += len(rexp)
+        rr, riss = validate(rpath)
+        states += rr.distinct
+        rbad = {i[0] for i in riss}
+        rissues = []
+        for ln, e in enumerate(revs, 1):
+            if e["ev"] != "FaultExp":
+                continue
+            if ln in rbad or not (e.get("resumed") and e.get("equal") and e.get("contOK", True)):
+                site = e.get("site", "")
+                if e["h"] in (fdoc["sched"].get("DevRewards"), fdoc["sched"].get("V202")) and e["k"] == 1:
+                    site = "factomd-request <- node.(*Pegnetd).NullifyBurnAddress"      # its own dblock fetch (2nd request of the block)
+                f = next((f for f in open_f if f.get("signature", {}).get("site") and f["signature"]["site"] in site), None)
+                if f:
+                    known[f["id"]] = f
+                    continue
+                rissues.append(("fail-req", 0, PID, "after a failed upstream request (request %s of block %s, %s) the database holds part of a block / "
+                                "the resumed ledger differs: %s" % (e["k"], e["h"], site, e.get("diffTables")), rpath))
+        if rissues:
+            keep = os.path.join(vlib.replay_dir(PID), "fail-req-seed%d.ndjson" % seed)
+            shutil.copyfile(rpath, keep)
+            json.dump(fdoc, open(keep + ".scenario.json", "w"))
+            issues += rissues
+        if [i for i in issues if i[0] == "fail-edges"]:
             keep = os.path.join(vlib.replay_dir(PID), "fail-edges-seed%d.ndjson" % seed)
             shutil.copyfile(fpath, keep)
             json.dump(fdoc, open(keep + ".scenario.json", "w"))
@@ -168,6 +201,8 @@ def main():
                     "height h-1 and is SIGKILLed before event k (k = 0: before BEGIN .. K-1: before COMMIT; plus right after COMMIT); a fresh "
                     "process reads synced height + canonical dump, then resumes; every experiment is replayed through Sync.tla by TLC. "
                     "quick: every k of one seeded block + every 23rd k of all others; thorough: every k of every non-empty block, rollback-journal and WAL. "
+                    "In addition the statements at the edges of every block's transaction and the upstream requests of the blocks fail once each (block "
+                    "failure instead of process death), with the same oracle. "
                     "All experiments are distinct (h,k) pairs and non-trivial (a real process is killed).",
             "samples": samples[:3],
             "exhaustive": tier == "thorough",
